@@ -143,7 +143,7 @@ class Mirror:
                 for r, p in self.par[c].items():
                     if p == i and not (st == 2 and r not in self.pd[c] and self.rels[r][4]):
                         return False
-            return not any(x[1] == i or x[2] == i for x in self.padd)
+            return not any(x[1] == i or x[2] == i for x in self.padd) and not self.pd[i]
         return True
 
     def do(self, op):
@@ -392,7 +392,7 @@ def impl(c):
     err = None
     try:
         for op in ops:
-            if not mir.ok(op):
+            if not mir.ok(op) and not (c.get("raw") and op[0] == 5 and mir.st.get(op[1]) == 2):
                 continue
             t = op[0]
             if t == 0:
@@ -507,7 +507,8 @@ def impl(c):
                     if q != l:
                         viol = "object %d: many-to-many %s%d is %r in memory, %r reloaded" % (k, "mn"[side], i, l, q)
         s2.close()
-    else:
+    elif c.get("model", True) or err.split(":")[0].replace("commit: ", "") in (
+            "KeyError", "AttributeError", "TypeError", "AssertionError", "IndexError"):
         viol = "flush/commit failed: " + err
     eng.dispose()
     _last["viol"] = viol
@@ -521,8 +522,18 @@ def oracle(c, obs):
 
 
 def match_finding(c, what):
-    rels = c["in"][0]
+    rels, ops = c["in"]
     orphan = any(r[1] == 0 and r[5] >> 1 & 1 for r in rels)
     if orphan and ("collection c" in what or "objects in the session" in what):
         return "C30-pending-orphan-reparented-not-inserted"
+    if c.get("raw") and "collection c" in what:
+        # a delete issued after the object was re-attached to a collection in the same flush window
+        dirty = set()
+        for o in ops:
+            if o[0] == 2 and o[3] not in (None, []):
+                dirty.add(o[2])
+            elif o[0] == 6:
+                dirty.clear()
+            elif o[0] == 5 and o[1] in dirty:
+                return "C30-cancelled-delete-is-only-postponed"
     return None
